@@ -335,7 +335,7 @@ def match_known(pid, text):
     """a violation is known iff an entry of kind `known` for this property has a
     regex `signature` matching the (shrunk) replay text"""
     for k in load_known():
-        if k.get("property") == pid and k.get("status") == "known" and re.search(k["signature"], text, re.S):
+        if (k.get("property") == pid or pid in k.get("also", [])) and k.get("status") == "known" and re.search(k["signature"], text, re.S):
             return k
     return None
 
